@@ -35,16 +35,34 @@ VALIGNS = ["top", "middle", "bottom", ("relative", 30), ("relative", 100)]
 
 def ops(enc: str, max_ops: int = 3, new_depth: int = 1):
     """strategy: list of mutation ops.  A *value op* changes a setting of some node; a *widget op* carries the
-    spec of a new widget of sizing mode "mode" and exchanges / inserts it where a widget of that mode belongs."""
+    spec of a new widget of sizing mode "mode" and exchanges / inserts it where a widget of that mode belongs
+    (when the tree has no such place it acts as a value op).  Texts are a function of the op's integers (payload())."""
     base = dict(k=st.integers(0, 9999), a=st.integers(0, 99), b=st.integers(0, 99), spell=st.integers(0, 5))
-    base["text"] = T.markup(enc, 10)
     value_op = st.fixed_dictionaries(base)
 
     def widget_op(mode):
-        return st.fixed_dictionaries(dict(mode=st.just(mode), new=st.integers(0, new_depth).flatmap(lambda d: G.widget(mode, d, enc)), **base))
+        return st.fixed_dictionaries(dict(mode=st.just(mode), new=st.one_of([G.widget(mode, d, enc) for d in range(new_depth + 1)]), **base))
 
     op = st.one_of(value_op, widget_op("flow"), widget_op("flow"), widget_op("box"), widget_op("fixed"))
-    return st.one_of(st.just([]), *[st.lists(op, min_size=1, max_size=max_ops)] * 4)
+    # never empty: the caller renders the unmutated tree first in any case
+    return st.one_of(st.lists(op, min_size=1, max_size=max_ops), st.lists(op, min_size=min(2, max_ops), max_size=max_ops))
+
+
+def payload(op, enc, newlines=True):
+    """JSON markup for a text-setting op, a pure function of its integers a, b: 0..14 characters taken from the
+    encoding's whole alphabet (ASCII, blank, double-width, zero-width, DEC line-drawing) and newline, as one
+    string, one attributed segment or several segments"""
+    a, b = op["a"], op["b"]
+    alpha = [*T.ALPHABET[enc], " ", " "] + (["\n"] if newlines else [])
+    n = [0, 1, 2, 3, 5, 8, 14, 4][b % 8]
+    t = "".join(alpha[(a * 7 + i * (b + 3) + i * i) % len(alpha)] for i in range(n))
+    kind = (b // 8) % 3
+    if kind == 1:
+        return [[T.ATTRS[a % 3], t]]
+    if kind == 2:
+        cut = a % (len(t) + 1)
+        return [t[:cut], [T.ATTRS[b % 3], t[cut:]]]
+    return t
 
 
 def op_specs(op_list):
@@ -169,17 +187,6 @@ def _visible(m):
     return ["X", m] if isinstance(m, str) else ["X", *m]
 
 
-def _oneline(m):
-    if isinstance(m, str):
-        return m.replace("\n", " ")
-    return [seg.replace("\n", " ") if isinstance(seg, str) else [seg[0], seg[1].replace("\n", " ")] for seg in m]
-
-
-def _longer(m, op):
-    """repeat a plain-text payload 1..3 times (texts long enough to wrap at the wider sizes)"""
-    return m * (1 + op["b"] % 3) if isinstance(m, str) else m
-
-
 def mutators(s, w, slot, enc):
     """[(name, need, fn(op, nw, nspec) -> description | None)] for the node (spec s, live widget w) sitting in
     sizing slot `slot`.  need: None (value op) or the slot of the new widget the mutator takes; nw / nspec: that
@@ -231,7 +238,7 @@ def mutators(s, w, slot, enc):
 
     if c == "Text":
         def set_text(op, nw, ns):
-            m = _longer(op["text"], op)
+            m = payload(op, enc)
             if slot in ("text", "fixed"):
                 m = _visible(m)
             w.set_text(T.build_markup(m, s.get("bytes", False), enc))
@@ -243,18 +250,18 @@ def mutators(s, w, slot, enc):
         layout_mutators(G.WRAP)
     elif c == "Edit":
         def set_edit_text(op, nw, ns):
-            t = T.markup_text(_longer(op["text"], op))
+            t = T.markup_text(payload(op, enc))
             s["text"] = t
             return _alt(op, ("set_edit_text", lambda: w.set_edit_text(t)), ("edit_text=", lambda: setattr(w, "edit_text", t))) + f" {t!r}"
 
         def insert_text(op, nw, ns):
-            t = T.markup_text(_oneline(op["text"]))
+            t = T.markup_text(payload(op, enc, newlines=False))
             w.insert_text(t)
             s["text"] = w.edit_text
             return f"insert_text {t!r}"
 
         def set_caption(op, nw, ns):
-            m = op["text"]
+            m = payload(op, enc)
             w.set_caption(T.build_markup(m, False, enc))
             s["caption"] = m
             return f"set_caption {m!r}"
@@ -281,7 +288,7 @@ def mutators(s, w, slot, enc):
             return _alt(op, ("set_edit_text", lambda: w.set_edit_text(t)), ("edit_text=", lambda: setattr(w, "edit_text", t))) + f" {t!r}"
 
         def set_caption(op, nw, ns):
-            t = T.markup_text(_oneline(op["text"]))
+            t = T.markup_text(payload(op, enc, newlines=False))
             w.set_caption(t)
             s["caption"] = t
             return f"set_caption {t!r}"
@@ -290,7 +297,7 @@ def mutators(s, w, slot, enc):
         add("set_caption", set_caption)
     elif c in ("Button", "CheckBox", "RadioButton"):
         def set_label(op, nw, ns):
-            m = _longer(op["text"], op)
+            m = payload(op, enc)
             w.set_label(T.build_markup(m, False, enc))
             s["label"] = m
             return f"set_label {m!r}"
@@ -307,7 +314,7 @@ def mutators(s, w, slot, enc):
             add("toggle_state", lambda op, nw, ns: (w.toggle_state(), "toggle_state")[1])
     elif c == "SelectableIcon":
         def set_icon_text(op, nw, ns):
-            m = op["text"]
+            m = payload(op, enc)
             w.set_text(T.build_markup(m, False, enc))
             s["text"] = m
             return f"set_text {m!r}"
@@ -392,7 +399,7 @@ def mutators(s, w, slot, enc):
     elif c == "LineBox":
         if "tline" not in s["drop"]:
             def set_title(op, nw, ns):
-                t = T.markup_text(_oneline(op["text"]))
+                t = T.markup_text(payload(op, enc, newlines=False))
                 w.set_title(t)
                 s["title"] = t
                 return f"set_title {t!r}"
@@ -713,6 +720,10 @@ def _listbox(s, w, add):
 # interpreter
 
 
+class Ineffective(Exception):
+    """a setter returned normally but the new widget is not in the tree afterwards"""
+
+
 def apply(op, spec, root, slot, enc, rec=None):
     """Perform `op` on the live tree `root` described by `spec` (updated in place) whose root sits in sizing
     slot `slot`.  Returns (mutator name, description) or None when no node of the tree offers what the op asks
@@ -725,12 +736,29 @@ def apply(op, spec, root, slot, enc, rec=None):
         cands = [(name, fn) for name, need, fn in every if need is None]
     if not cands:
         return None
-    name, fn = cands[op["k"] % len(cands)]
     nw = ns = None
     if "new" in op:
         ns = copy.deepcopy(op["new"])
         nw = G.build(ns, enc, rec)
-    desc = fn(op, nw, ns)
-    if desc is None:
+    # the first candidate, counting cyclically from k, that applies in the current state (a mutator that does not
+    # apply - nothing to delete, container full - returns None without having touched anything)
+    for j in range(len(cands)):
+        name, fn = cands[(op["k"] + j) % len(cands)]
+        try:
+            desc = fn(op, nw, ns)
+        except Exception as e:
+            e.mutator = name
+            raise
+        if desc is not None:
+            break
+    else:
         return None
+    if nw is not None:
+        # spec and live tree must still be in step, with the new widget in its place
+        try:
+            found = any(lw is nw for _s, lw, _sl in nodes(spec, root, slot))
+        except (AssertionError, AttributeError):
+            found = False
+        if not found:
+            raise Ineffective(f"{name}: {desc}")
     return name, f"{name}: {desc}"
